@@ -82,6 +82,17 @@ def run(case):
                 res.fail('%s.pruning:%s' % (name, exc), 'use_pruning=True raised')
             elif not ref.close(v, refd):
                 res.fail(name + '.pruning:value', 'use_pruning=True -> %r, reference %r' % (v, refd))
+        # the accumulated-cost routines have their own pruning bound (psi-free for C: their psi handling beyond the
+        # band is the open finding F11a)
+        wfns = [('py', dtw_ndim.warping_paths, {})]
+        if not any(gen.psi4(case['psi'])):
+            wfns += [('c', dtw_ndim.warping_paths_fast, {}), ('c-compact', dtw_ndim.warping_paths_fast, {'compact': True})]
+        for name, fn, extra in wfns:
+            got, exc = libcall(fn, a1, a2, use_pruning=True, **extra, **kw)
+            if exc:
+                res.fail('%s.wps.pruning:%s' % (name, exc), 'warping_paths(use_pruning=True) raised')
+            elif not ref.close(got[0], refd):
+                res.fail(name + '.wps.pruning:value', 'warping_paths(use_pruning=True) returned %r, reference %r' % (got[0], refd))
     # upper bound
     e = ref.ref_ed(s1, s2, inner)
     for name, fn in (('dtw_ndim.ub_euclidean', lambda: dtw_ndim.ub_euclidean(a1, a2, inner_dist=inner)),
